@@ -180,14 +180,37 @@ def run_case(ctx, mon, labels, opts, tag, which, stale=None):
 
     case = {"labels": labels, "options": opts, "tag": tag, "stale": stale}
     keys = sorted(opts)
-    if len(keys) >= 2 and hash(repr(labels[:3])) % 6 == 0:
+    hv = hash(repr(labels[:3]))
+    nodes = WL.make_nodes(labels)
+    handed_over = False
+    as_fraction = hv % 16 == 5 and all(opts.get(k) is None or float(opts[k]) == int(opts[k]) for k in ("minPos", "maxPos"))
+    if as_fraction:
+        # integral bounds handed over as exact rationals (a numeric type that is neither int nor float)
+        opts = dict(opts)
+        for k in ("minPos", "maxPos"):
+            if opts.get(k) is not None:
+                opts[k] = F(int(opts[k]))
+        ctx.path("bounds-as-fractions")
+    if hv % 8 == 3 and len(labels) <= 60 and not stale:
+        # the engine laid the same labels out under another configuration before; set_options() then compute() again
+        other = dict(opts, nodeSpacing=0 if opts.get("nodeSpacing") else 9, density=0.3 if opts.get("density", 0.85) > 0.5 else 1.0)
+        f = Force(other)
+        f.nodes(nodes)
+        try:
+            f.compute()
+        except Exception:
+            pass
+        mon.drain()
+        f.set_options(dict(opts))
+        handed_over = True  # no second nodes() call: the engine already holds these labels
+        ctx.path("recomputed-after-set-options")
+    elif len(keys) >= 2 and hv % 6 == 0:
         # the same options given in two calls: some to the constructor, the rest to set_options()
         f = Force({k: opts[k] for k in keys[::2]})
         f.set_options({k: opts[k] for k in keys[1::2]})
         ctx.path("options-in-two-calls")
     else:
         f = Force(dict(opts))
-    nodes = WL.make_nodes(labels)
     if stale:
         # the same label objects were laid out before by another engine/configuration (stale stubs, layers, positions)
         g = Force(dict(stale))
@@ -197,7 +220,8 @@ def run_case(ctx, mon, labels, opts, tag, which, stale=None):
         except Exception:
             pass
         mon.drain()
-    f.nodes(nodes)
+    if not handed_over:
+        f.nodes(nodes)
     try:
         f.compute()
     except BudgetExceeded:
